@@ -75,6 +75,11 @@ def check(ctx):
     n_un = 0
     for cmd in ('list', 'restore', 'rm'):
         for what, node, term in location_uses(ctx, cmd):
+            if not unquote_calls(term) and what != 'scope test':
+                ctx.ob('R03.1', '%s %s decodes Path with unquote, exactly once' % (cmd, what),
+                       False, node=node,
+                       message='%s: the %s uses the Path value without percent-decoding it'
+                               % (cmd, what))
             for u in unquote_calls(term):
                 n_un += 1
                 inner_twice = has_unquote(u.args[0]) if u.args else False
